@@ -9,7 +9,13 @@
    (DESIGN 3.2): loop-thread steps, foreign calls cut into load / store / enqueue, kernel events.
    A connection is destroyed exactly when its set of holders becomes empty; holders are DERIVED
    from the state (map entry, strong functors anywhere in a loop, user references, foreign calls
-   in progress), never stored.  No proofs in this file. *)
+   in progress), never stored.
+   ~TcpServer also destroys the thread pool (EventLoopThreadPool.cc, EventLoopThread.cc): the io
+   loops are told to quit one after the other and joined; EventLoop::loop() is
+   while (!quit_) { poll; dispatch; doPendingFunctors(); } with no drain after the loop, so a loop
+   that has been told to quit leaves at the end of its current drain (EndBatch) and whatever is
+   still in pendingFunctors_ is destroyed unrun with the EventLoop (s_stop, quitting, gone).
+   No proofs in this file. *)
 From Coq Require Import List Bool Arith Lia.
 From Muduo Require Import Conn_Model.
 Import ListNotations.
